@@ -141,3 +141,19 @@ M("c12-translate-wrong-id", "C12", "warning-regions", (T, "        lambda: sourc
 M("c12-drop-region-removed", "C12", "warning-regions", (T, "    with _drop_expression_warnings():\n        source, lexer = _compile(\n            template, text, filename, generate_magic_comment=False\n        )", "    if True:\n        source, lexer = _compile(\n            template, text, filename, generate_magic_comment=False\n        )"))
 M("c12-marker-mismatch", "C12", "metadata", (CG, '"__M_BEGIN_METADATA",', '"__M_BEGIN_META",'))
 M("c12-benign-extra-source", "C12", "silent", (CG, "    def visitBlockTag(self, node):\n        if node.is_anonymous:", "    def visitBlockTag(self, node):\n        self.printer.start_source(node.lineno)\n        if node.is_anonymous:"))
+
+# ---------------------------------------------------------------- C01
+M("c01-text-stop-any-closing", "C01", "zero-width-consumer", (LX, "(?=<%|</%[\\t ]*[^\\t ]+?[\\t ]*>)", "(?=</?%)           "))
+M("c01-texttag-lookahead", "C01", "zero-width-consumer", (LX, 'match = self.match(r"(.*?)\\</%text>", re.S)', 'match = self.match(r"(.*?)(?=\\</%text>)", re.S)'))
+M("c01-lone-cr", "C01", "zero-width-consumer", (LX, '            r"((?:(?:\\\\\\r?\\n)|[^\\r\\n]|\\r(?!\\n))*)"', '            r"((?:(?:\\\\\\r?\\n)|[^\\r\\n])*)"'))
+M("c01-eda-attr-loop", "C01", "no-EDA", (LX, "              \\s*[=,](?:\\s+(?:\"[^\"]*?\"|'[^']*?'))?  # = sign; comma is for", "              \\s*[=,]\\s*  # = sign; comma is for"))
+M("c01-pyblock-before-tags", "C01", "cascade-order", (LX, "            if self.match_tag_start():\n                continue\n            if self.match_tag_end():\n                continue\n            if self.match_python_block():\n                continue", "            if self.match_python_block():\n                continue\n            if self.match_tag_start():\n                continue\n            if self.match_tag_end():\n                continue"))
+M("c01-no-percent-matcher", "C01", "zero-width-consumer", (LX, "            if self.match_percent():\n                continue\n", ""))
+M("c01-cursor-moved-outside", "C01", "cursor-owner", (LX, "            text, end = self.parse_until_text(False, r\"%>\")\n", "            text, end = self.parse_until_text(False, r\"%>\")\n            self.match_position += 0\n"))
+M("c01-no-progress", "C01", "progress", (LX, "self.match_position = end + 1 if end == start else end", "self.match_position = end"))
+M("c01-text-content-stripped", "C01", "verbatim-flow", (LX, "                self.append_node(parsetree.Text, text)\n            return True", "                self.append_node(parsetree.Text, text.rstrip(' '))\n            return True"))
+M("c01-visittext-no-repr", "C01", "verbatim-flow", (CG, 'self.printer.writeline("__M_writer(%s)" % repr(node.content))', 'self.printer.writeline("__M_writer(\'%s\')" % node.content)'))
+M("c01-crlf-control-line", "C01", "crlf", (LX, '            r"(?:\\r?\\n|\\Z)",\n            re.M,', '            r"(?:\\n|\\Z)",\n            re.M,'))
+M("c01-linecount-wrong-span", "C01", "line-count", (LX, 'self.lineno += self.text[mp : self.match_position].count("\\n")', 'self.lineno += match.group(0).count("\\n")'))
+M("c01-scan-returns-group", "C01", "zero-width-consumer", (LX, "                    self.text[\n                        startpos : self.match_position - len(match.group(1))\n                    ],", "                    self.text[\n                        self.match_position - 1 : self.match_position - len(match.group(1))\n                    ],"))
+M("c01-benign-max", "C01", "silent", (LX, "self.match_position = end + 1 if end == start else end", "self.match_position = max(end, start + 1)"))
